@@ -146,7 +146,7 @@ def replay_known(ctx):
 
 
 def run(ctx):
-    built, worlds, results = common.common_prelude(ctx, ctx.pid, 40, 600)
+    built, worlds, results = common.common_prelude(ctx, ctx.pid.split("_")[0] + "_ilp", 40, 600)
     common.stream_csys(ctx, worlds, results)
     common.stream_plan(ctx, worlds, results)
     common.run_sat_monitor(ctx, worlds, results)
